@@ -133,6 +133,18 @@ def coq_asmstruct_expr(st):
             f"{nat_list(st['mask'])} {ts} {nat_list(st['group'])} {nat_list(st['child_inds'])} {nat_list(st['par_inds'])}")
 
 
+def coq_graphstruct_expr(st):
+    """the remaining decidable conditions (Model/GraphStruct.v) under which the assembled system is the graph system"""
+    tp = topology(st)
+    pb = "[" + "; ".join(coq_opt(x) for x in tp["pbp"]) + "]"
+    cb = "[" + "; ".join(coq_opt(x) for x in tp["cbp"]) + "]"
+    kd = "[" + "; ".join(nat_list(k) for k in tp["kids"]) + "]"
+    pr = nat_list([p if p is not None else 0 for p in tp["par"]])
+    ts = "[" + "; ".join(f"({a}%nat, {b}%nat, {t}%nat)" for (a, b, t) in st["edges"]) + "]"
+    return (f"graph_struct_idx {st['nb']}%nat {tp['nbp']}%nat {pb} {cb} {kd} {pr} {nat_list(st['cs'])} {nat_list(st['pl'])} {nat_list(st['nc'])} "
+            f"{nat_list(st['mask'])} {st['ncomp']}%nat {ts} {nat_list(st['group'])} {nat_list(st['child_inds'])} {nat_list(st['par_inds'])}")
+
+
 def run_real(m, st, g, v, vt, ct, dt, solver):
     import numpy as np
     import jax.numpy as jnp
